@@ -410,6 +410,9 @@ def check(run):
     # "a slot is finalized exactly when the node holds the certificates": received certificates of one kind must not be refused because of another kind
     from . import C03 as _C03
     _C03.ob_once(run, "O8.17")
+    # a slot is reported finalized when it holds the finalization certificate AND the notarization certificate: the latter exists as soon as the notar
+    # votes reach 60%, under no other condition (creation sites carry the exact guard set)
+    _C03.ob_thresholds_creation(run, "O8.18")
     ob_prune_after_decision(run, "O8.16")
     from . import detectors as _DS
     _DS.ob_structural_impls(run, "O8.15", ['consensus::pool::finality_tracker', 'types::', 'crypto::hash', 'crypto::merkle'], 'status and block-id comparisons decide what is (re)reported and what a watermark may pass')
